@@ -172,7 +172,7 @@ def candidates(text, mode):
                             cs, ce = src.span(ch)
                             yield pre + ind + text[cs:ce] + eol + post
                     # simplest compound statement around the same block: `if a:`
-                    for sub in blocks[:1]:
+                    for sub in blocks:
                         blk = _dedent_block(src, sub, ind + " ")
                         if blk:
                             yield pre + ind + "if a:" + eol + blk + post
@@ -210,8 +210,17 @@ def candidates(text, mode):
                     if isinstance(ch, ast.pattern):
                         cs, ce = src.span(ch)
                         yield text[:s] + text[cs:ce] + text[e:]
-    # matched parentheses
+    # matched parentheses: drop them; other brackets: turn into parentheses
     yield from rw.r_paren_remove(src)
+    stack = []
+    for t in src.toks:
+        if t.type == T.OP and t.string in "([{":
+            stack.append(t)
+        elif t.type == T.OP and t.string in ")]}" and stack:
+            o = stack.pop()
+            if o.string != "(":
+                o1, c1 = src.off(o.start), src.off(t.start)
+                yield text[:o1] + "(" + text[o1 + 1 : c1] + ")" + text[c1 + 1 :]
     # row windows
     for w in (3, 2, 1):
         for i in range(0, len(rows) - w + 1):
